@@ -16,7 +16,10 @@ use crate::res::*;
 use crate::rng::{mix, Rng};
 use crate::sys::{instantiate, make_pool, Pool};
 
-const WAIT: Duration = Duration::from_secs(10);
+/// Bound of one rendezvous (a completed one takes well under a millisecond here). A failed
+/// rendezvous is only a violation if (a) it fails again when the same dispatch is repeated and
+/// (b) the plain-rayon control on the same pool then succeeds.
+const WAIT: Duration = Duration::from_secs(4);
 
 #[derive(Clone, Copy, Debug, PartialEq, Eq)]
 enum Ctxt {
@@ -147,76 +150,94 @@ fn case(rng: &mut Rng, rep: &mut Report, case_no: u64, reps: usize) {
     }
     let pts: Vec<Vec<u32>> = pts.into_iter().filter(|p| p.len() >= w).collect();
     let (ev, _) = plan_runs(&plan);
-    let ctx = Ctx::new(plan.n_uids(), (ev + 16) * 2);
-    let mut completed = 0usize;
-    let mut gave_up = 0usize;
     let t0 = Instant::now();
-    let run_reps = |d: &mut dyn FnMut(), ctx: &Arc<Ctx>, completed: &mut usize, gave_up: &mut usize| {
-        for _ in 0..reps {
-            let o = Arc::new(Overlap::new(pts.clone(), WAIT));
-            ctx.log.reset();
-            ctx.arm(o.clone());
-            ctx.set_mode(Mode::Run);
-            d();
-            ctx.set_mode(Mode::Build);
-            ctx.disarm();
-            *completed += o.completed.load(SeqCst);
-            *gave_up += o.gave_up.load(SeqCst);
-            if *gave_up > 0 {
-                break;
-            }
-        }
-    };
     // the stage's recent history must not matter: some cases first run a burst of dispatches in
     // which every system returns at once
     let warmup = if w <= 6 && rng.chance(1, 2) { rng.range(200, 3000) } else { 0 };
     let back_to_back = rng.chance(1, 2);
+    let par_only = rng.chance(1, 3);
     rep.metric("warmup_dispatches", warmup as i64);
-    match ctxt {
-        Ctxt::Async => {
-            let b = instantiate(&plan, &ctx, use_pool);
-            let mut ad = b.build_async(full_world());
-            ctx.set_mode(Mode::Quiet);
-            for _ in 0..warmup {
-                ad.dispatch();
-                ad.wait();
+    // One complete scenario on a fresh dispatcher: warm-up history, then `reps` dispatches whose
+    // group heads rendezvous. Returns (rendezvous completed, participants that gave up).
+    let scenario = || -> (usize, usize) {
+        let ctx = Ctx::new(plan.n_uids(), (ev + 16) * 2);
+        let mut completed = 0usize;
+        let mut gave_up = 0usize;
+        let run_reps = |d: &mut dyn FnMut(), ctx: &Arc<Ctx>, completed: &mut usize, gave_up: &mut usize| {
+            for _ in 0..reps {
+                let o = Arc::new(Overlap::new(pts.clone(), WAIT));
+                ctx.log.reset();
+                ctx.arm(o.clone());
+                ctx.set_mode(Mode::Run);
+                d();
+                ctx.set_mode(Mode::Build);
+                ctx.disarm();
+                *completed += o.completed.load(SeqCst);
+                *gave_up += o.gave_up.load(SeqCst);
+                if *gave_up > 0 {
+                    break;
+                }
             }
-            ctx.set_mode(Mode::Build);
-            run_reps(
-                &mut || {
+        };
+        match ctxt {
+            Ctxt::Async => {
+                let b = instantiate(&plan, &ctx, use_pool);
+                let mut ad = b.build_async(full_world());
+                ctx.set_mode(Mode::Quiet);
+                for _ in 0..warmup {
                     ad.dispatch();
-                    if back_to_back {
-                        // a second request while the first may still be in flight
-                        ad.dispatch();
-                    }
                     ad.wait();
-                },
-                &ctx,
-                &mut completed,
-                &mut gave_up,
-            );
-        }
-        _ => {
-            let mut d = instantiate(&plan, &ctx, use_pool).build();
-            let world = full_world();
-            let par_only = rng.chance(1, 3);
-            ctx.set_mode(Mode::Quiet);
-            for _ in 0..warmup {
-                d.dispatch(&world);
+                }
+                ctx.set_mode(Mode::Build);
+                run_reps(
+                    &mut || {
+                        ad.dispatch();
+                        if back_to_back {
+                            // a second request while the first may still be in flight
+                            ad.dispatch();
+                        }
+                        ad.wait();
+                    },
+                    &ctx,
+                    &mut completed,
+                    &mut gave_up,
+                );
             }
-            ctx.set_mode(Mode::Build);
-            run_reps(
-                &mut || {
-                    if par_only {
-                        d.dispatch_par(&world)
-                    } else {
-                        d.dispatch(&world)
-                    }
-                },
-                &ctx,
-                &mut completed,
-                &mut gave_up,
-            );
+            _ => {
+                let mut d = instantiate(&plan, &ctx, use_pool).build();
+                let world = full_world();
+                ctx.set_mode(Mode::Quiet);
+                for _ in 0..warmup {
+                    d.dispatch(&world);
+                }
+                ctx.set_mode(Mode::Build);
+                run_reps(
+                    &mut || {
+                        if par_only {
+                            d.dispatch_par(&world)
+                        } else {
+                            d.dispatch(&world)
+                        }
+                    },
+                    &ctx,
+                    &mut completed,
+                    &mut gave_up,
+                );
+            }
+        }
+        (completed, gave_up)
+    };
+    let (mut completed, mut gave_up) = scenario();
+    if gave_up > 0 {
+        // reproduce before believing it: the whole scenario once more on a fresh dispatcher
+        rep.metric("failed_rendezvous_retried", 1);
+        let (c2, g2) = scenario();
+        if g2 == 0 {
+            rep.metric("failed_rendezvous_not_reproduced", 1);
+            rep.inconclusive += 1;
+            rep.notes.push(format!("case {}: a rendezvous of width {} failed once and succeeded when the scenario was repeated: no verdict", case_no, w));
+            gave_up = 0;
+            completed = c2;
         }
     }
     rep.metric("rendezvous_completed", (completed / w.max(1)) as i64);
